@@ -24,17 +24,22 @@ def strictly_better(mode, new, old):
 
 SPECS = {
     # chain of three binary variables
-    "chain3": dict(vars={"x1": ([0, 1], "plain", 0), "x2": ([0, 1], "plain", 0), "x3": ([0, 1], "plain", 0)},
+    "chain3": dict(vars={"x1": ([0, 1], "plain", 0), "x2": (["a", "b"], "plain", "a"), "x3": ([7, 0], "plain", 7)},
                    cons=[["x1", "x2"], ["x2", "x3"]]),
     "chain3_free": dict(vars={"x1": [0, 1], "x2": [0, 1], "x3": [0, 1]}, cons=[["x1", "x2"], ["x2", "x3"]]),
     "pair_cost": dict(vars={"x1": ([0, 1], "func", 0), "x2": ([0, 1], "dict", 1)}, cons=[["x1", "x2"]]),
-    "pair3": dict(vars={"x1": ([0, 1, 2], "plain", 0), "x2": ([0, 1], "plain", 1)}, cons=[["x1", "x2"]]),
+    "pair3": dict(vars={"x1": ([5, 0, 2], "plain", 5), "x2": ([0, 1], "plain", 1)}, cons=[["x1", "x2"]]),
     "tri_nary": dict(vars={"x1": ([0, 1], "plain", 0), "x2": ([0, 1], "plain", 1), "x3": ([0, 1], "plain", 0)},
                      cons=[["x1", "x2", "x3"]]),
     "triangle": dict(vars={"x1": ([0, 1], "plain", 0), "x2": ([0, 1], "plain", 0), "x3": ([0, 1], "plain", 1)},
                      cons=[["x1", "x2"], ["x2", "x3"], ["x1", "x3"]]),
-    "iso": dict(vars={"x1": ([0, 1], "func", 0), "x2": ([0, 1], "plain", 0), "x3": ([0, 1, 2], "dict")},
+    "iso": dict(vars={"x1": ([0, 1], "func", 0), "x2": (["a", "b"], "plain", "b"), "x3": ([7, 0, 4], "dict")},
                 cons=[["x1", "x2"]]),
+    # the same neighbour met through two constraints (a binary one inside a ternary one / twice the same pair)
+    "overlap": dict(vars={"x1": ([0, 1], "plain", 0), "x2": ([0, 1], "plain", 0), "x3": ([0, 1], "plain", 1)},
+                    cons=[["x1", "x2"], ["x1", "x2", "x3"]]),
+    "double_pair": dict(vars={"x1": ([0, 1], "plain", 0), "x2": ([0, 1], "plain", 1)}, cons=[["x1", "x2"], ["x2", "x1"]]),
+    "iso2": dict(vars={"x1": ([0, 1], "plain", 0), "x2": (["a", "b"], "plain", "b"), "x3": (["r", "g"], "func")}, cons=[["x1", "x2"]]),
     "star_cost": dict(vars={"x1": ([0, 1], "func", 0), "x2": ([0, 1], "plain", 0), "x3": ([0, 1], "func", 1)},
                       cons=[["x1", "x2"], ["x1", "x3"]]),
 }
@@ -206,7 +211,9 @@ def sum_shared(a, b, asg, tabs):
     return tot
 
 
-def _shapes_mgm(tier):
+def _shapes_mgm(tier, prop=None):
+    if prop == "C10" and tier == "quick":
+        return [dict(spec="iso", stop_cycle=2), dict(spec="chain3", stop_cycle=2), dict(spec="pair_cost", stop_cycle=2)]
     s = [
         dict(spec="chain3", stop_cycle=2),
         dict(spec="chain3", stop_cycle=3, modes=["min"], budget_hint="deep"),
@@ -216,9 +223,16 @@ def _shapes_mgm(tier):
         dict(spec="iso", stop_cycle=2),
         dict(spec="chain3", stop_cycle=2, start_order="rev", policy="lifo", interleave_start=True),
         dict(spec="triangle", stop_cycle=2, policy="random", sched_seed=1),
+        dict(spec="overlap", stop_cycle=2, modes=["min"]),
+        dict(spec="double_pair", stop_cycle=2, modes=["max"]),
+        # every allowed value of the algorithm's own parameters
+        dict(spec="pair2", stop_cycle=2, algo_params=dict(break_mode="random")),
+        dict(spec="chain3", stop_cycle=2, modes=["min"], algo_params=dict(break_mode="random")),
     ]
     if tier == "thorough":
         s += [
+            dict(spec="chain3", stop_cycle=2, modes=["max"], algo_params=dict(break_mode="random")),
+            dict(spec="pair_cost", stop_cycle=2, algo_params=dict(break_mode="random")),
             dict(spec="chain3_free", stop_cycle=2),
             dict(spec="star_cost", stop_cycle=2),
             dict(spec="triangle", stop_cycle=3, modes=["min"]),
@@ -258,7 +272,10 @@ def _subsets(names):
 SPECS["pair2"] = dict(vars={"x1": ([0, 1], "plain", 0), "x2": ([0, 1], "plain", 1)}, cons=[["x1", "x2"]])
 
 
-def _shapes_mgm2(tier):
+def _shapes_mgm2(tier, prop=None):
+    if prop == "C10" and tier == "quick":
+        return [dict(algo="mgm2", spec="iso", stop_cycle=2, offerers=[]), dict(algo="mgm2", spec="pair2", stop_cycle=2, offerers=["x1"]),
+                dict(algo="mgm2", spec="chain3", stop_cycle=2, modes=["min"], offerers=["x2"])]
     q = []
     for off in _subsets(["x1", "x2"]):
         q.append(dict(algo="mgm2", spec="pair2", stop_cycle=2, offerers=off))
@@ -271,6 +288,8 @@ def _shapes_mgm2(tier):
     for off in ([], ["x1"]):
         q.append(dict(algo="mgm2", spec="tri_nary", stop_cycle=2, modes=["min"], offerers=off))
     q.append(dict(algo="mgm2", spec="iso", stop_cycle=2, offerers=[]))
+    q.append(dict(algo="mgm2", spec="double_pair", stop_cycle=2, modes=["min"], offerers=["x1"]))
+    q.append(dict(algo="mgm2", spec="overlap", stop_cycle=2, modes=["min"], offerers=[]))
     q.append(dict(algo="mgm2", spec="chain3", stop_cycle=2, modes=["min"], offerers=["x3"], start_order="rev", policy="lifo", interleave_start=True))
     if tier != "thorough":
         return q
